@@ -61,9 +61,21 @@ class LeanState:
 
 
 def _run(cmd, cwd=None, timeout=3600, env=None):
-    p = subprocess.run(cmd, cwd=cwd, stdout=subprocess.PIPE, stderr=subprocess.STDOUT,
-                       timeout=timeout, env=env, text=True)
-    return p.returncode, p.stdout
+    """Run a command in its own process group; on timeout the whole group (lake and the lean processes it
+    started) is killed and the return code is 124."""
+    import signal
+    p = subprocess.Popen(cmd, cwd=cwd, stdout=subprocess.PIPE, stderr=subprocess.STDOUT, env=env, text=True,
+                         start_new_session=True)
+    try:
+        out, _ = p.communicate(timeout=timeout)
+        return p.returncode, out
+    except subprocess.TimeoutExpired:
+        try:
+            os.killpg(p.pid, signal.SIGKILL)
+        except ProcessLookupError:
+            pass
+        out, _ = p.communicate()
+        return 124, (out or '') + '\nerror: timed out after %ds: %s' % (timeout, ' '.join(cmd))
 
 
 def strip_lean_comments(src: str) -> str:
@@ -126,7 +138,14 @@ def import_cone(modules):
     return sorted(files)
 
 
-def lean_prepare(prop_id, extra_modules=(), thorough=False, log=print):
+# A kernel evaluation (`decide +kernel`) of a statement that has become FALSE does not fail quickly: the kernel
+# may run for a very long time before giving up.  Builds therefore run under a time limit (a timeout is a
+# broken obligation like any build failure, never a violation by itself), and a property may supply a cheap
+# `prebuild` test on the native driver that predicts such a failure so that the build is not even attempted.
+BUILD_TIMEOUT = int(os.environ.get('VERIF_BUILD_TIMEOUT', '1500'))
+
+
+def lean_prepare(prop_id, extra_modules=(), thorough=False, log=print, prebuild=None):
     """Regenerate Gen/*, build library + driver, audit the property's theorems."""
     st = LeanState()
     lock = open(LEAN / '.lock', 'w')
@@ -139,18 +158,30 @@ def lean_prepare(prop_id, extra_modules=(), thorough=False, log=print):
             st.bad.append('extract: %s: %s' % (type(e).__name__, e))
             st.gen_changed = ['<extract failed>']
         t0 = time.time()
-        targets = ['Mistletoe.Props.' + prop_id] + list(extra_modules) + ['driver']
-        rc, out = _run(['lake', 'build'] + targets, cwd=LEAN, timeout=3000)
-        st.build_log = out
-        st.build_ok = rc == 0
-        st.driver_ok = DRIVER.exists() and rc == 0
-        log('lake build: rc=%d in %.1fs' % (rc, time.time() - t0))
-        if rc != 0:
-            # is the driver (the model) still buildable on its own?
-            rc2, out2 = _run(['lake', 'build', 'driver'], cwd=LEAN, timeout=3000)
-            st.driver_ok = rc2 == 0 and DRIVER.exists()
-            errs = [l for l in out.splitlines() if 'error' in l][:8]
-            st.bad.append('lake build failed: ' + ' | '.join(errs))
+        rc_d, out_d = _run(['lake', 'build', 'driver'], cwd=LEAN, timeout=BUILD_TIMEOUT)
+        st.driver_ok = rc_d == 0 and DRIVER.exists()
+        skip = None
+        if prebuild is not None and st.driver_ok:
+            try:
+                skip = prebuild()
+            except Exception as e:
+                skip = 'prebuild test raised %s: %s' % (type(e).__name__, e)
+        if not st.driver_ok:
+            errs = [l for l in out_d.splitlines() if 'error' in l][:8]
+            st.bad.append('lake build driver failed: ' + ' | '.join(errs))
+            st.build_log = out_d
+        elif skip:
+            st.bad.append('theorems not rebuilt: ' + skip)
+            st.build_log = skip
+        else:
+            targets = ['Mistletoe.Props.' + prop_id] + list(extra_modules)
+            rc, out = _run(['lake', 'build'] + targets, cwd=LEAN, timeout=BUILD_TIMEOUT)
+            st.build_log = out
+            st.build_ok = rc == 0
+            if rc != 0:
+                errs = [l for l in out.splitlines() if 'error' in l][:8]
+                st.bad.append('lake build failed: ' + ' | '.join(errs))
+        log('lake build: ok=%s in %.1fs' % (st.build_ok, time.time() - t0))
     finally:
         fcntl.flock(lock, fcntl.LOCK_UN)
         lock.close()
@@ -209,7 +240,7 @@ def lean_prepare_driver_only(log=print):
             st.gen_changed = extract.regenerate(log=log)
         except Exception as e:
             st.gen_changed = ['<extract failed: %s>' % e]
-        rc, out = _run(['lake', 'build', 'driver'], cwd=LEAN, timeout=3000)
+        rc, out = _run(['lake', 'build', 'driver'], cwd=LEAN, timeout=BUILD_TIMEOUT)
         st.build_ok = rc == 0
         st.driver_ok = rc == 0 and DRIVER.exists()
         st.build_log = out
@@ -361,7 +392,7 @@ def run_check(mod, tier, seed):
     level = getattr(mod, 'LEVEL', 'proof')
     if level == 'proof':
         lean = lean_prepare(prop_id, getattr(mod, 'EXTRA_MODULES', ()), thorough=ctx.thorough,
-                            log=ctx.log)
+                            log=ctx.log, prebuild=getattr(mod, 'prebuild', None))
     else:
         # interim check without Lean theorems of its own: the model driver is still (re)built because
         # units may use it, but no theorem audit takes place and the evidence says `exploration`
